@@ -30,6 +30,7 @@ type sinkObs struct {
 	Fired      bool
 	Skipped    bool
 	StdWriters int
+	Collected  bool
 }
 
 // checkC20 evaluates the first sentence of C20 for one document and one
@@ -119,6 +120,10 @@ func checkC20(s *Scenario) (*Failure, *sinkObs) {
 			return &Failure{Check: "determinism", Observed: firstDiff(string(hw.Buf), string(fwr.Buf))}, obs
 		}
 		return nil, obs
+	}
+	if s.Writer.GC {
+		collect()
+		obs.Collected = true
 	}
 	// a healthy run after the failed one must be unaffected by it
 	aw, awr := newSimWriter(&WriterScn{Flavour: s.Writer.Flavour, FailAt: -1, ByteBudget: -1})
